@@ -146,7 +146,7 @@ func runC13(c c13Case, ev *Ev) error {
 	deadline := time.Now().Add(5 * time.Second)
 	quietSince := time.Now()
 	for time.Now().Before(deadline) {
-		d, err := p.Recv(30 * time.Millisecond)
+		d, err := p.RecvFresh(30 * time.Millisecond)
 		if err != nil {
 			if len(got) >= len(want) && time.Since(quietSince) > 60*time.Millisecond {
 				break
@@ -357,7 +357,7 @@ func runC13Flood(c c13Flood, ev *Ev) error {
 		if err := p.Send(model.Establishment(op.Seq, run.Peers[0].NodeID, op.CPSEID, run.Peers[0].IP, op)); err != nil {
 			return fmt.Errorf("INFRA: establishment %d: %v", i, err)
 		}
-		d, err := p.Recv(10 * time.Second)
+		d, err := p.RecvFresh(10 * time.Second)
 		if err != nil {
 			return fmt.Errorf("INFRA: establishment %d: %v", i, err)
 		}
@@ -384,7 +384,7 @@ func runC13Flood(c c13Flood, ev *Ev) error {
 		deadline := time.Now().Add(30 * time.Second)
 		quiet := time.Now()
 		for time.Now().Before(deadline) {
-			d, err := p.Recv(50 * time.Millisecond)
+			d, err := p.RecvFresh(50 * time.Millisecond)
 			if err != nil {
 				if n >= c.N && time.Since(quiet) > 300*time.Millisecond {
 					break
